@@ -74,35 +74,54 @@ fn build_via_api(stack: &[GateModifier], name: &str, base_params: usize, qubits:
     g
 }
 
+fn prog_results(p: &Program, n: u64) -> Sexp {
+    let r1 = program_unitary_result(p.to_unitary(n));
+    let d = match p.dagger() {
+        Err(e) => {
+            let _ = format!("{e} {e:#} {e:?}");
+            tagged("dagger-err", vec![])
+        }
+        Ok(dp) => {
+            let body = dp.to_instructions();
+            let r2 = program_unitary_result(dp.to_unitary(n));
+            tagged("dagger", vec![tagged("instrs", body.iter().map(instr_to_sexp).collect()), r2])
+        }
+    };
+    // `&self` methods: a second to_unitary after dagger() must return the very same thing
+    let r3 = program_unitary_result(p.to_unitary(n));
+    tagged("progres", vec![r1, d, r3])
+}
+
+/// `Program::to_unitary`, `Program::dagger`, the dagger program's `to_unitary`, and `to_unitary` again; the program is
+/// built by one of three public builder routes chosen by the case index.
 fn prog_case(ctx: &mut Ctx, instrs: Vec<Instruction>, n: u64) {
     let input = tagged("prog", vec![nat(n), tagged("instrs", instrs.iter().map(instr_to_sexp).collect())]);
+    let route = ctx.next_index;
+    ctx.case(input, move || prog_results(&build_program(instrs, route), n));
+}
+
+/// The same through Quil text: the instructions are printed, re-parsed by `Program::from_str`, and the PARSED
+/// program is both the case's input and the object under test.
+fn prog_case_text(ctx: &mut Ctx, instrs: &[Instruction], n: u64) {
+    use quil_rs::quil::Quil;
+    use std::str::FromStr;
+    let text: Vec<String> = instrs.iter().map(|i| i.to_quil().expect("printable")).collect();
+    let p = match Program::from_str(&text.join("\n")) {
+        Ok(p) => p,
+        Err(_) => return,
+    };
+    let body = p.to_instructions();
+    let input = tagged("prog", vec![nat(n), tagged("instrs", body.iter().map(instr_to_sexp).collect())]);
+    ctx.case(input, move || prog_results(&p, n));
+}
+
+fn unitary2_case(ctx: &mut Ctx, g: &Gate, n: u64) {
+    let input = tagged("unitary2", vec![gate_to_sexp(g), nat(n)]);
+    let mut g = g.clone();
     ctx.case(input, move || {
-        let mut p = Program::new();
-        for i in instrs {
-            p.add_instruction(i);
-        }
-        let r1 = match p.to_unitary(n) {
-            Ok(m) => tagged("ok", vec![mat_to_sexp(&m)]),
-            Err(quil_rs::program::ProgramError::UnsupportedForUnitary(_)) => tagged("err", vec![atom("unsupported")]),
-            Err(quil_rs::program::ProgramError::GateError(e)) => tagged("err", vec![atom(format!("gate-{}", gate_error_kind(&e)))]),
-            Err(_) => tagged("err", vec![atom("other")]),
-        };
-        let d = match p.dagger() {
-            Err(_) => tagged("dagger-err", vec![]),
-            Ok(dp) => {
-                let body = dp.to_instructions();
-                let r2 = match dp.to_unitary(n) {
-                    Ok(m) => tagged("ok", vec![mat_to_sexp(&m)]),
-                    Err(quil_rs::program::ProgramError::UnsupportedForUnitary(_)) => tagged("err", vec![atom("unsupported")]),
-                    Err(quil_rs::program::ProgramError::GateError(e)) => {
-                        tagged("err", vec![atom(format!("gate-{}", gate_error_kind(&e)))])
-                    }
-                    Err(_) => tagged("err", vec![atom("other")]),
-                };
-                tagged("dagger", vec![tagged("instrs", body.iter().map(instr_to_sexp).collect()), r2])
-            }
-        };
-        tagged("progres", vec![r1, d])
+        let r1 = unitary_result(g.to_unitary(n));
+        let r2 = unitary_result(g.to_unitary(n));
+        tagged("twice", vec![r1, r2])
     });
 }
 
@@ -304,7 +323,59 @@ fn run(ctx: &mut Ctx) {
                 let filler = Instruction::Gate(raw("H", vec![], &[qs[0]], vec![]));
                 prog_case(ctx, vec![Instruction::Gate(g.clone()), Instruction::Gate(r.clone())], n);
                 prog_case(ctx, vec![Instruction::Gate(g.clone()), filler, Instruction::Gate(r.clone())], n);
-                prog_case(ctx, vec![Instruction::Gate(r.clone()), Instruction::Gate(g), Instruction::Gate(r)], n);
+                prog_case(ctx, vec![Instruction::Gate(r.clone()), Instruction::Gate(g.clone()), Instruction::Gate(r.clone())], n);
+                prog_case_text(ctx, &[Instruction::Gate(g.clone()), Instruction::Gate(r.clone())], n);
+                // the same gate repeated (memoisation), and to_unitary twice on one value (the second call sees the consumed gate)
+                prog_case(ctx, vec![Instruction::Gate(g.clone()), Instruction::Gate(g.clone())], n);
+                unitary2_case(ctx, &g, n);
+            }
+        }
+        // to_unitary twice on error paths too
+        unitary2_case(ctx, &raw("RX", vec![real(0.1), real(0.2), real(0.3)], &[1, 0], vec![Forked]), 2);
+        unitary2_case(ctx, &raw("FOO", vec![], &[1, 0], vec![Controlled]), 2);
+        unitary2_case(ctx, &raw("X", vec![], &[0], vec![]), 1);
+    }
+
+    // ---- 5b. HALT / NOP / RESET at every position of a three-gate program
+    {
+        let base = vec![
+            Instruction::Gate(raw("H", vec![], &[0], vec![])),
+            Instruction::Gate(raw("X", vec![], &[1, 0], vec![Controlled])),
+            Instruction::Gate(raw("RZ", vec![real(0.7)], &[1], vec![Dagger])),
+        ];
+        let extras = [Instruction::Halt(), Instruction::Nop(), Instruction::Reset(quil_rs::instruction::Reset { qubit: None })];
+        for e in &extras {
+            for pos in 0..=base.len() {
+                let mut v = base.clone();
+                v.insert(pos, e.clone());
+                prog_case(ctx, v, 2);
+            }
+        }
+        prog_case(ctx, vec![Instruction::Halt()], 1);
+        prog_case(ctx, vec![Instruction::Halt(), Instruction::Halt()], 2);
+    }
+
+    // ---- 5c. parameters that only become numbers after simplification (Quil text), under modifiers and in programs
+    {
+        let mut rng = ctx.rng(20);
+        for (name, k) in PARAM_GATES {
+            for text in EXPR_TEXTS {
+                let n = k as u64 + 1;
+                let qs = random_placement(&mut rng, k + 1, n);
+                let g = parse_gate(name, text, &qs[1..]);
+                let cg = g.clone().controlled(Qubit::Fixed(qs[0])).dagger();
+                unitary_case(ctx, &cg, n);
+                prog_case(ctx, vec![Instruction::Gate(cg), Instruction::Gate(g)], n);
+            }
+        }
+    }
+
+    // ---- 5d. beyond 5 qubits (the theorems are for all n): a few modified gates on 6 qubits
+    {
+        let mut rng = ctx.rng(21);
+        for _ in 0..(if quick { 3 } else { 30 }) {
+            if let Some(g) = random_gate(&mut rng, 6, 3) {
+                unitary_case(ctx, &g, 6);
             }
         }
     }
